@@ -59,6 +59,14 @@ def gen_cases(tier, seed):
         if rep == 0:
             j += 1
             yield {'family': 'stream_names', 'idx': 10 ** 6 + j, 'seed': seed}
+        # two fields of ONE type that are written differently (own output formats; zone-aware next to naive)
+        for k_ in range(4):
+            j += 1
+            yield {'family': 'same_type_written_differently', 'idx': 10 ** 6 + j, 'seed': seed, 'combo': k_}
+        # a dump into a directory that already holds an earlier dump of OTHER data captures the rows that pass it now
+        for k_ in range(4):
+            j += 1
+            yield {'family': 'dump_again_other_data', 'idx': 10 ** 6 + j, 'seed': seed, 'combo': k_}
         if rep == 0:
             # every observer once in a process whose locale is not UTF-8, over non-ASCII text
             j += 1
@@ -262,6 +270,94 @@ def run_observer_rerun(case):
                 cov={'observer_x_discarder_x_pos': {'%s|same_flow_three_runs|middle' % obs_kind: 1}}, sample={'config': cfg})
 
 
+def run_same_type_twins(case):
+    import datetime
+    d = lab.df()
+    counters = {'downstream_compared': 0, 'observer_content_compared': 0, 'finalizer_calls_checked': 0}
+    which, fmt = ['dates', 'instants'][case['combo'] & 1], ['csv', 'json'][(case['combo'] >> 1) & 1]
+    tz = datetime.timezone(datetime.timedelta(hours=2))
+    if which == 'dates':
+        rows = [dict(id=i, start=datetime.date(2021, 1 + i, 4), end=datetime.date(2021, 5, 6 + i)) for i in range(5)]
+        types = lambda: [d.set_type('start', type='date', outputFormat='%d/%m/%Y'),      # noqa: E731
+                         d.set_type('end', type='date', outputFormat='%m/%d/%Y')]
+        opts = {'temporal_format_property': 'outputFormat', 'format': fmt}
+    else:
+        rows = [dict(id=i, seen=datetime.datetime(2021, 3, 4 + i, 12, 30, 0, tzinfo=tz),
+                     logged=datetime.datetime(2021, 3, 4 + i, 10, 30, 0)) for i in range(5)]
+        types = lambda: [d.set_type('seen', type='datetime', format='%Y-%m-%dT%H:%M:%S%z'),     # noqa: E731
+                         d.set_type('logged', type='datetime')]
+        opts = {'format': fmt}
+    cfg = {'observer': 'dump_to_path', 'options': opts, 'fields': which}
+    viol = []
+    try:
+        with boot.quiet():
+            expected = d.Flow([dict(r) for r in rows], *types()).results()[0][0]
+            down = d.Flow([dict(r) for r in rows], *types(), d.dump_to_path('twins_out', **copy.deepcopy(opts)),
+                          d.filter_rows(condition=lambda row: row['id'] % 2 == 0)).results()[0][0]
+    except Exception as e:
+        return dict(nontrivial=False, violations=[{'kind': 'observer_breaks_run', 'mech': 'dump_to_path/twins_failed',
+                                                   'observer': 'dump_to_path', 'msg': '%r: %s' % (cfg, str(getattr(e, 'cause', e))[:200])}],
+                    counters=counters, cov={})
+    counters['downstream_compared'] += 1
+    if not lab.strict_eq(down, [r for r in expected if r['id'] % 2 == 0]):
+        viol.append({'kind': 'downstream_rows', 'mech': 'dump_to_path/twins_downstream', 'observer': 'dump_to_path',
+                     'msg': '%r: rows downstream of the dump %r' % (cfg, down[:2])})
+    try:
+        with boot.quiet():
+            back = d.Flow(d.load('twins_out/datapackage.json')).results()[0][0]
+    except Exception as e:
+        back = 'unreadable through its own descriptor: %s' % str(getattr(e, 'cause', e))[:150]
+    counters['observer_content_compared'] += 1
+    if isinstance(back, str) or not lab.strict_eq(back, expected):
+        viol.append({'kind': 'observer_content', 'mech': 'dump_to_path/twins_content', 'observer': 'dump_to_path',
+                     'msg': '%r: the dump holds %r, the rows that passed it %r' % (cfg, back if isinstance(back, str) else back[:2],
+                                                                                   expected[:2])})
+    return dict(nontrivial=True, violations=viol, counters=counters,
+                cov={'observer_x_discarder_x_pos': {'dump_to_path|same_type_written_differently/%s/%s|middle' % (which, fmt): 1}},
+                sample={'config': cfg})
+
+
+def run_dump_again(case):
+    d = lab.df()
+    rng = boot.rng(case['seed'], 'C05', 'dump_again', case['idx'])
+    counters = {'downstream_compared': 0, 'observer_content_compared': 0, 'finalizer_calls_checked': 0}
+    filehash, no_hash = bool(case['combo'] & 1), bool(case['combo'] & 2)
+    fmt = rng.choice(['csv', 'json'])
+    opts = {'format': fmt}
+    if filehash:
+        opts['add_filehash_to_path'] = True
+    if no_hash:
+        opts['counters'] = {'resource-hash': None}
+    cfg = {'observer': 'dump_to_path', 'options': opts, 'dumps_into_the_same_directory': 2}
+    viol = []
+    n = rng.choice([2, 6, 25])
+    for gen_no in (1, 2):
+        rows = [{'id': i, 's': 'g%d-%d' % (gen_no, i)} for i in range(n + gen_no)]
+        try:
+            with boot.quiet():
+                res = d.Flow([dict(r) for r in rows], d.update_resource(-1, name='res', path='res.csv'),
+                             d.dump_to_path('again_out', **copy.deepcopy(opts)), d.add_field('z', 'integer', 1)).results()[0]
+                back = d.Flow(d.load('again_out/datapackage.json')).results()[0]
+        except Exception as e:
+            viol.append({'kind': 'observer_breaks_run', 'mech': 'dump_to_path/dump_again_failed', 'observer': 'dump_to_path',
+                         'msg': '%r: dump %d (or loading it back) failed: %s' % (cfg, gen_no, str(getattr(e, 'cause', e))[:200])})
+            break
+        counters['downstream_compared'] += 1
+        counters['observer_content_compared'] += 1
+        if [dict(r, z=1) for r in rows] != res[0]:
+            viol.append({'kind': 'downstream_rows', 'mech': 'dump_to_path/dump_again_downstream', 'observer': 'dump_to_path',
+                         'msg': '%r: dump %d: rows downstream %r' % (cfg, gen_no, res[0][:3])})
+        if back != [rows]:
+            viol.append({'kind': 'observer_content', 'mech': 'dump_to_path/dump_again_stale_content', 'observer': 'dump_to_path',
+                         'msg': '%r: after dump %d the directory holds %r..., the rows that passed the dumper are %r...'
+                         % (cfg, gen_no, [r[:2] for r in back], rows[:2])})
+            break
+    return dict(nontrivial=True, violations=viol, counters=counters,
+                cov={'observer_x_discarder_x_pos': {'dump_to_path|dump_again_other_data/%s%s%s|middle'
+                                                    % (fmt, '/filehash' if filehash else '', '/no_hash_counter' if no_hash else ''): 1}},
+                sample={'config': cfg})
+
+
 def run_stream_names(case):
     """stream('<path>') publishes the captured stream under exactly the requested name."""
     d = lab.df()
@@ -299,6 +395,10 @@ def run_case(case):
         return run_c_locale(case)
     if case['family'] == 'stream_names':
         return run_stream_names(case)
+    if case['family'] == 'dump_again_other_data':
+        return run_dump_again(case)
+    if case['family'] == 'same_type_written_differently':
+        return run_same_type_twins(case)
     if case['family'] == 'observer_rerun':
         return run_observer_rerun(case)
     kind = case['family']
